@@ -459,6 +459,9 @@ def render(model, src):
         sandbox.write_file(os.path.join(src, h), '/* {} */\n'.format(h))
     for d in model['data']:
         sandbox.write_file(os.path.join(src, d), 'data {}\n'.format(d))
+    if (model.get('decor') or {}).get('yacc'):
+        for f in ('gram1.y', 'gram2.y', 'ymain.c'):
+            sandbox.write_file(os.path.join(src, f), '/* {} */\n'.format(f))
     sandbox.write_file(os.path.join(src, 'build.bfg'), script(model))
 
 
@@ -559,6 +562,13 @@ def script(model):
                 extra += ', environment={!r}'.format(st_['env'])
             L.append('{} = command({!r}, cmd=["rec", "CMD:{}"]{})'.format(
                 v, st_['name'], st_['name'], extra))
+    if decor.get('yacc'):
+        # two grammars: one with an explicitly named single output, one with
+        # the default source + header pair, in either order
+        y1 = "gy1 = generated_source('y_one.c', 'gram1.y')"
+        y2 = "gy2 = generated_source(file='gram2.y')"
+        L += [y1, y2] if decor['yacc'] == 'one-first' else [y2, y1]
+        L.append("yprog = executable('yprog', ['ymain.c', gy1, gy2])")
     if model.get('clash'):
         st_ = step_by_id(model)[model['clash'][0]]
         if model['clash'][1] == 'alias':
